@@ -10,6 +10,11 @@ CHECKS = {
         text="Every type of a bounded universe (all 58 rank<=3 shape/mask/axis-order combinations over all 11 leaf kinds, all structs of 1-2 (thorough 1-3) leaf fields, second and third nesting levels over layout-signature representatives incl. references and union references) x 3 value alphabets (position-coded ramp, extremes incl. inf/nan/-0/subnormal/integer limits/multi-byte UTF-8, minimal incl. empty arrays/strings and nulls) x every applicable input form (plain data, 5 ndarray layouts, xobject from same/other buffer/context/buffer kind, nested xobjects, string capacity) x 12 placements; full read-back through every accessor incl. to_nplike/to_nparray.",
         note="Values and nesting outside the enumerated universe are not covered; the universe is exhaustive within its stated menus (xoverif/universe.py).",
         design="2/C01"),
+    "C02": dict(
+        technique="exhaustive enumeration of (type, object, generated access path, index tuple, accessor) executed through the real cffi build route; differential oracle against the Python accessors",
+        text="Types compiled in batches through ctx.add_kernels(kernels=T._gen_kernels(), extra_classes=...); for every type x 3 value alphabets x every path of _gen_data_paths x every in-range index tuple, every generated reader (get, getp, len, typeid, member; names from capi.methods_from_path) is called on an object at a non-zero offset of a relocated buffer and compared with the Python view: value, element address (slot address for union references), length, member index, member address.",
+        note="The symbolic all-indices/all-headers reading is not decided (solver territory); decided: all indices for all constructor-produced headers with extents <= 4. Distinct same-named array classes are never put in one translation unit.",
+        design="2/C02"),
     "C03": dict(
         technique="exhaustive case enumeration + depth-bounded explicit-state BFS over assignment histories on the real code; byte-diff confinement oracle on traced, poisoned buffers",
         text="Construction of every universe type x forms x placements with live poisoned neighbours flush on both sides (two complementary poisons), and every history of fitting assignments (leaf / whole compound, through handle, view, nested view) up to the stated depth on the history sub-universe: changed bytes must lie inside extents the traced allocator handed out for the object; reported size == reserved extent == documented size; nested parts inside parents, siblings disjoint.",
@@ -25,6 +30,11 @@ CHECKS = {
         text="After construction (whole universe) and after every write event (history sub-universe, depth 1 quick / 2 thorough) the view rebuilt from (buffer, offset) and the rebuilt view of every nested compound agree with the constructor-side handles on value at every index, shape, strides, size, item/field offsets and cached structure.",
         note="Stand-alone union references are compared through their target.",
         design="2/C06"),
+    "C07": dict(
+        technique="exhaustive enumeration of setter calls (history per object) through cffi with full Python re-read, plus execution of every generated accessor on exact-size malloc images under ASan+UBSan (fault oracle) with byte-diff confinement and independent final-image decoding",
+        text="(a) every scalar-leaf path x every in-range index tuple x {other value, type min, type max} through the cffi-built setters, whole object re-read after each call; (b) stand-alone clang -fsanitize=address,undefined build of the emitted source with uniform wrappers: every accessor x every index tuple on the exact buffer image (object flush against the end of its allocation), no sanitizer report, results equal to Python's, readers change nothing, setters change only their element, final image decodes to the expected value tree.",
+        note="Calls through null references are not made; a worker killed by a signal inside an accessor is reported as a violation with the last call.",
+        design="2/C07"),
     "C08": dict(
         technique="explicit-state BFS (replay-based) over reference-binding histories on real holders and buffers against a heap-graph reference model",
         text="8 holder shapes (struct/array/stand-alone, Ref/UnionRef, static/dynamic targets, nested holder) in a small traced growing buffer with two same-buffer objects, one other-member object and one foreign-buffer object; all histories to depth 4/3 (quick) or 6/5 (thorough) over the property's eight event kinds; on every transition: null encodings, alias = same offset, copies = fresh extents allocated in that transition, member index/type, relative offset words, liveness of the target allocation, values of all targets and originals (visibility and independence), before and after growth.",
@@ -61,6 +71,11 @@ CHECKS = {
         text="Both CPU buffer kinds x capacity 0..10 (thorough 0..20) x every (offset,length) x every copying primitive and source kind/layout/dtype; poisoned background; storage read back directly; extracted copies independent, typed views aliasing (both directions).",
         note="Requests outside the capacity are not part of the property.",
         design="2/C13"),
+    "C15": dict(
+        technique="exhaustive enumeration of (type, target): token-stream comparison of the four specialisations, address-space qualifier scan, compiler acceptance, and host EXECUTION of the real OpenCL text (clang -x cl) and CUDA text (g++) for every path/index/object against the Python view",
+        text="For every type of the C02 universe: identical token streams modulo qualifier tokens across cpu_serial/cpu_openmp/opencl/cuda; every pointer type of the OpenCL text carries __global and the text passes clang -x cl -cl-std=CL1.2; all forms pass gcc/g++ with keywords defined away; OpenCL and CUDA forms are executed on the host for every accessor x index tuple x object and agree with Python (values, addresses, lengths, member ids; setters confined).",
+        note="Host compilers stand in for device compilers.",
+        design="2/C15"),
 }
 
 NOT_APPLICABLE = {}
